@@ -14,6 +14,8 @@ import tempfile
 import time
 
 from .core import Driver, frac
+from . import c11_text
+from .c11_text import hexs
 
 LEVEL_TEXT = ("Proof: the line-by-line decoder of catalog-forecast CSV files (state = previous catalog id, pending events) "
               "returns, for every well-formed file of n >= 1 catalogs - any number of events per catalog, every "
@@ -21,20 +23,32 @@ LEVEL_TEXT = ("Proof: the line-by-line decoder of catalog-forecast CSV files (st
               "with their own events in file order (induction with a generalised accumulator invariant, kernel-checked); a "
               "row whose id is below its predecessor's is rejected, and rows-only files load iff ids never decrease. Tied to "
               "the code by exhaustive correspondence over all encodings with n <= 5 catalogs of 0..2 events and by random "
-              "forecasts with hundreds of catalogs through all three public loaders.")
-LEVEL_NOTE = ("csv tokenisation, float() and strptime parsing of the fields are trusted (the model starts from parsed rows); "
-              "the harness checks the parsed values against the generating events exactly.")
+              "forecasts with hundreds of catalogs through all three public loaders. Text layer: the loader is also modelled "
+              "from the CHARACTERS of the file (csv state machine, float(), int(), the two strptime formats, header test) and "
+              "proved to be the row-level decoder on what the records read as, so the decode theorem holds for the text; "
+              "every file is given to that model as bytes.")
+LEVEL_NOTE = ("csv tokenisation, float(), int() and strptime parsing of the fields are MODELLED (Model/CatalogText.lean, "
+              "Model/DecimalText.lean) for ASCII text without line breaks inside quoted fields and compared with Python on every "
+              "file and on separate token / record / time-string streams; non-ASCII digits, inf / nan words and the sign of a "
+              "zero are outside the model. The harness also checks the parsed values against the generating events exactly.")
 DESIGN_REF = "DESIGN.md §4 C12"
 TECHNIQUE = "exact-layer state-machine model + induction over the encoded catalogs; exhaustive-small and random correspondence"
 
 THEOREMS = ["AsciiCatalogs.decode_encode", "AsciiCatalogs.decode_encode_length", "AsciiCatalogs.number_getElem",
             "AsciiCatalogs.decode_rejects_decreasing", "AsciiCatalogs.decode_rows_ok_iff_sorted",
-            "AsciiCatalogs.step_row_prev", "AsciiCatalogs.step_decreasing", "AsciiCatalogs.header_only_first"]
+            "AsciiCatalogs.step_row_prev", "AsciiCatalogs.step_decreasing", "AsciiCatalogs.header_only_first",
+            # the text layer (Properties/C12_Text.lean): csv records, float(), int(), strptime, header test -> the decoder
+            "AsciiCatalogs.stepFields_eq_step", "AsciiCatalogs.loopFields_eq_loop", "AsciiCatalogs.decodeText_eq_decode",
+            "AsciiCatalogs.decodeText_encode", "AsciiCatalogs.decodeText_rejects_decreasing", "AsciiCatalogs.readRow_ok",
+            "AsciiCatalogs.readRow_bad_id", "AsciiCatalogs.header_reads_as_header", "AsciiCatalogs.explicit_meta_wins",
+            "AsciiCatalogs.meta_from_filename", "AsciiCatalogs.exRow_readsAs",
+            "AsciiCatalogs.csvAux_inField_plain", "AsciiCatalogs.csvAux_startField_plain", "AsciiCatalogs.csvAux_join",
+            "AsciiCatalogs.csvFields_join"]
 TRUSTED = ["Lean 4.33 kernel", "axioms: propext, Classical.choice, Quot.sound at most",
-           "csv.reader tokenisation, float(), int(), datetime.strptime and the CSEPCatalog constructor (list of tuples -> "
-           "structured array) are not modelled: the model starts from parsed rows; the harness compares the loaded field "
-           "values with the generating events exactly (the expected value of a numeric field is float(text); that every "
-           "non-repr spelling reads as the intended double is checked at generation)",
+           "csv.reader tokenisation, float(), int() and datetime.strptime are modelled (decodeText) and compared with Python on "
+           "every run; the CSEPCatalog constructor (list of tuples -> structured array) is not modelled; the harness compares "
+           "the loaded field values with the generating events exactly (the expected value of a numeric field is float(text); "
+           "that every non-repr spelling reads as the intended double is checked at generation)",
            "csv.writer as the definition of how a field containing the delimiter, a quote or blanks is written (quoted, "
            "quotes doubled); TZ + time.tzset() as the way to give the process a local time zone",
            "the generator protocol: the model returns the list of everything yielded, an exception discards it",
@@ -51,7 +65,13 @@ RULE = ("exhaustive: every forecast of n <= 5 catalogs with 0..2 events each x e
         "restored afterwards): times in files are UTC by definition; a quarter of the catalogs with >= 2 events repeat an "
         "event in all six fields (adjacent / distant / all copies; also the last event of one catalog = the first of the "
         "next); malformed stream: one row id lowered below its predecessor (or a header line after the first row). Each "
-        "file is loaded through load_ascii_catalogs, load_catalog_forecast (iterated) and load_stochastic_event_sets. A case "
+        "file is loaded through load_ascii_catalogs, load_catalog_forecast (iterated) and load_stochastic_event_sets; the "
+        "forecast object is walked in one of five ways (plain loop; a first look with next() x1 / x2 or a for-loop left early, "
+        "then the rest, then the whole forecast again; twice) and must give the encoded catalogs each time with n_cat = their "
+        "number; 3/4 of the files carry one of 13 file-name shapes (name_<time>.csv and near misses) that must not change the "
+        "catalogs; 5 % of origin times sit at / next to the epoch (epoch ms 0, -1, 1) and 3 % of events have every field "
+        "zero; every file is also given to the text-level model as bytes (c12_text); 400 csv lines and 400 time strings "
+        "against csv.reader / strptime, ~1600 decimal tokens against float() / int(). A case "
         "is non-trivial when the file has >= 2 catalogs and at least one empty catalog or is a rejection case; distinct by "
         "the sha1 of the file text")
 
@@ -106,6 +126,12 @@ def _coord(rng, lo, hi):
 
 def _time(rng):
     """(time string, epoch ms). The instant is built with integer arithmetic; the expected value is its floor to ms."""
+    if rng.random() < 0.05:
+        # instants at and next to the epoch: the origin time in epoch milliseconds is 0 / -1 / 1 (a value that is "false"
+        # in Python must still be an origin time, not a blank)
+        return rng.choice([("1970-01-01T00:00:00", 0), ("1970-01-01T00:00:00.000", 0), ("1970-01-01T00:00:00.000999", 0),
+                           ("1970-1-1T0:0:0", 0), ("1970-01-01T00:00:00.0", 0), ("1969-12-31T23:59:59.999", -1),
+                           ("1969-12-31T23:59:59.999999", -1), ("1970-01-01T00:00:00.001", 1), ("1970-01-01T00:00:01", 1000)])
     us = rng.randrange(_T_LO, _T_HI)
     style = rng.choice(["f6", "f6ms", "f3", "f1", "f2", "none", "unpadded"])
     if style == "f6ms":
@@ -191,6 +217,10 @@ def _event(rng, k):
     """[lon_repr, lat_repr, mag_repr, time_string, epoch_ms, depth_repr, event_id]"""
     ts, ms = _time(rng)
     eid = _event_id(rng, k)
+    if rng.random() < 0.03:
+        # every field zero: lon 0, lat 0, magnitude 0, depth 0, origin time = the epoch, sometimes no event id either
+        z = lambda: rng.choice(["0.0", "0", "0.0", "-0.0", "0e0", "0.00"])
+        return [z(), z(), z(), rng.choice(["1970-01-01T00:00:00", "1970-01-01T00:00:00.0"]), 0, z(), rng.choice(["", eid, "0"])]
     return [_spell(rng, _coord(rng, -180, 180)), _spell(rng, _coord(rng, -90, 90)), _spell(rng, _coord(rng, 0, 9.5)), ts, ms,
             _spell(rng, _coord(rng, 0, 700)), eid]
 
@@ -280,21 +310,55 @@ def _canon_loaded(catalogs):
 
 
 LOADERS = ("load_ascii_catalogs", "load_catalog_forecast", "load_stochastic_event_sets")
+# ways of walking over the object csep.load_catalog_forecast returns (chosen per file from its content hash): one plain
+# loop; or a first look at k catalogs (next() / a for-loop left early), then the rest, then the whole forecast once more
+WALKS = ("plain", "plain", "next1", "break1", "next2", "twice")
 
 
-def _load(path, which):
+class WalkError(Exception):
+    pass
+
+
+def _load(path, which, walk="plain", csep_format=False):
     import csep
     from csep.core.catalogs import CSEPCatalog
     if which == "load_ascii_catalogs":
         return list(CSEPCatalog.load_ascii_catalogs(path))
+    fmt = dict(format="csep") if csep_format else {}     # 'csep': catalogs converted with get_csep_format()
     if which == "load_catalog_forecast":
-        return [c for c in csep.load_catalog_forecast(path)]
-    return list(csep.load_stochastic_event_sets(path))
+        fore = csep.load_catalog_forecast(path, **fmt)
+        if walk == "plain":
+            return [c for c in fore]
+        seen = []
+        if walk in ("next1", "next2"):
+            for _ in range(1 if walk == "next1" else 2):
+                try:
+                    seen.append(next(fore))
+                except StopIteration:
+                    break
+        elif walk == "break1":
+            for c in fore:
+                seen.append(c)
+                break
+        exhausted = walk in ("next1", "next2") and len(seen) < (1 if walk == "next1" else 2)
+        rest = [] if exhausted else [c for c in fore]
+        first = seen + rest
+        again = [c for c in fore]
+        a, b = _canon_loaded(first), _canon_loaded(again)
+        if a != b:
+            raise WalkError(f"walk {walk}: the first pass (look at {len(seen)} + rest) gave {a[:300]} but reading the forecast "
+                            f"again gave {b[:300]}")
+        if fore.n_cat != len(first):
+            raise WalkError(f"walk {walk}: n_cat = {fore.n_cat!r} after reading {len(first)} catalogs")
+        return first
+    return list(csep.load_stochastic_event_sets(path, **fmt))
 
 
-def _impl(path, which):
+def _impl(path, which, walk="plain", csep_format=False):
     try:
-        return _canon_loaded(_load(path, which))
+        return _canon_loaded(_load(path, which, walk, csep_format))
+    except WalkError as e:
+        return "walk:" + str(e)
     except Exception as e:  # canonical: rejected, with the class kept for the histogram
         return "err:" + type(e).__name__
 
@@ -304,6 +368,7 @@ class Ctx:
         self.run = run
         self.drv = Driver()
         self.pending = []
+        self.meta = []
         self.dir = tempfile.mkdtemp(prefix="verif_c12_")
         self.k = 0
 
@@ -318,6 +383,10 @@ def check_case(ctx, spec, tag, loaders=LOADERS):
     body = eol.join(text) + (eol if spec.get("trailing_newline", True) else "")
     ctx.k += 1
     path = os.path.join(ctx.dir, f"fc{ctx.k}.csv")
+    if spec.get("fname"):
+        os.makedirs(os.path.join(ctx.dir, f"d{ctx.k}"), exist_ok=True)
+        path = os.path.join(ctx.dir, f"d{ctx.k}", spec["fname"])
+        run.count("file name:" + spec["fname"])
     with open(path, "w", newline="") as f:
         f.write(body)
     n = len(spec["cats"])
@@ -351,10 +420,19 @@ def check_case(ctx, spec, tag, loaders=LOADERS):
                 run.count("event id needing csv quoting / with blanks")
     want = None if expected is None else _canon_expected(expected)
     outs = {}
+    walk = spec.get("walk") or WALKS[int(case["sha1"][:6], 16) % len(WALKS)]
+    run.count("walk over load_catalog_forecast:" + walk)
+    csep_format = int(case["sha1"][6:8], 16) % 4 == 0      # a quarter of the files: format='csep' in the two top-level loaders
+    if csep_format:
+        run.count("format='csep'")
     for which in loaders:
         with local_zone(zone):
-            got = _impl(path, which)
+            got = _impl(path, which, walk, csep_format)
         outs[which] = got
+        if got.startswith("walk:"):
+            run.oracle_failure(full_case, f"{which}: {got[5:]}")
+            outs.pop(which)
+            continue
         if expected is None:
             if not got.startswith("err:"):
                 run.oracle_failure(full_case, f"{which}: a file with decreasing catalog ids was accepted: {got[:300]}")
@@ -363,21 +441,100 @@ def check_case(ctx, spec, tag, loaders=LOADERS):
         elif got != want:
             run.oracle_failure(full_case, f"{which}: loaded catalogs differ from the encoded ones: got {got[:400]} "
                                           f"expected {want[:400]}")
+    if spec.get("fname"):
+        _file_meta(ctx, path, spec)
     os.unlink(path)
     i = ctx.drv.ask("c12_decode " + (";".join(model) if model else "-"))
-    ctx.pending.append((full_case, i, outs))
+    # the same file handed to the TEXT-level model as characters (csv state machine, float(), int(), strptime in Lean)
+    it = ctx.drv.ask("c12_text " + hexs(body))
+    ctx.pending.append((full_case, i, outs, it))
+
+
+def _file_meta(ctx, path, spec):
+    """name / start_time defaults parsed from the file name (csep/__init__.py:508-519, catalogs.py:940-947, :986-990), and
+    explicit keywords winning over them: compared with AsciiCatalogs.parseFilename / forecastMeta (recorded, not judged:
+    the property is about the catalogs)"""
+    import csep
+    from csep.core.catalogs import CSEPCatalog
+    try:
+        fore = csep.load_catalog_forecast(path)
+        name, st = fore.name, fore.start_time
+        cats = list(CSEPCatalog.load_ascii_catalogs(path))
+        cname = cats[0].name if cats else None
+        fore2 = csep.load_catalog_forecast(path, name="given", start_time=EPOCH.replace(year=2001, tzinfo=datetime.timezone.utc))
+        kept = fore2.name == "given" and fore2.start_time.year == 2001
+    except Exception as e:
+        ctx.run.count("file-name defaults: load raised " + type(e).__name__)
+        return
+    us = None if st is None else ((st.replace(tzinfo=None) - EPOCH) // datetime.timedelta(microseconds=1))
+    j = ctx.drv.ask("c12_fname " + hexs(path))
+    ctx.meta.append((j, name, us, cname, kept, spec["fname"]))
 
 
 def flush(ctx):
     out = ctx.drv.run()
-    for case, i, outs in ctx.pending:
-        m = out[i]
-        for which, got in outs.items():
-            same = (got == m) if m.startswith("ok:") else got.startswith("err:")
-            if not same:
-                ctx.run.mismatch(dict(case, loader=which), got[:600], m[:600])
+    for case, i, outs, it in ctx.pending:
+        for tag, m in (("rows", out[i]), ("text", out[it])):
+            for which, got in outs.items():
+                same = (got == m) if m.startswith("ok:") else got.startswith("err:")
+                if not same:
+                    ctx.run.mismatch(dict(case, loader=which, model=tag), got[:600], m[:600])
+        ctx.run.count("text-level model asked")
+    for j, name, us, cname, kept, fname in ctx.meta:
+        m = out[j]
+        want = (None, None) if m == "none" else (c11_text.unhexs(m.split(",")[0]), int(m.split(",")[1]))
+        ok = (name, us) == want and kept and cname == want[0]
+        ctx.run.count("file-name defaults " + ("agree with the model" if ok else f"DIFFER ({fname})"))
+    ctx.meta = []
     ctx.pending = []
     ctx.drv = Driver()
+
+
+def _field_stream(run, rng, n):
+    """csv records and time strings, one at a time: csv.reader on one line / strptime_to_utc_epoch with the two formats of
+    read_catalog_line, against AsciiCatalogs.csvFields / parseTime"""
+    from csep.utils.time_utils import strptime_to_utc_epoch
+    drv, asks = Driver(), []
+    alphabet = ['"', '"', ",", ",", "a", "b", " ", "1", ".", '""', ',"', '",', "x y", "-"]
+    for _ in range(n):
+        line = "".join(rng.choice(alphabet) for _ in range(rng.randint(0, 9)))
+        # a second line tells whether the record ended with the line (a quoted field left open swallows the line break:
+        # such records are outside the text-level model, which answers `none`)
+        rec = list(csv.reader(io.StringIO(line + "\nZ\n", newline=""), delimiter=","))
+        closed = len(rec) == 2 and rec[1] == ["Z"]
+        want = "none" if not closed else ("empty" if not rec[0] else ",".join(hexs(f) for f in rec[0]))
+        asks.append(("csv", line, want, drv.ask("c12_csv " + hexs(line))))
+    good = ["%Y-%m-%dT%H:%M:%S.%f", "%Y-%m-%dT%H:%M:%S"]
+    for _ in range(n):
+        ts, _ms = _time(rng)
+        k = rng.random()
+        if k < 0.35:
+            t = list(ts)
+            j = rng.randrange(len(t))
+            t[j] = rng.choice("0123456789-:T. ")
+            if rng.random() < 0.3:
+                t.insert(rng.randrange(len(t) + 1), rng.choice("0123456789"))
+            ts = "".join(t)
+        elif k < 0.45:
+            ts = rng.choice(["2020-02-30T00:00:00", "2021-02-29T01:01:01.5", "2020-02-29T23:59:59.999999", "2020-13-01T00:00:00",
+                             "2020-00-10T00:00:00", "2020-1-1T24:00:00", "2020-1-1T23:60:00", "2020-1-1T23:59:60", "2020-1-1T23:59:61",
+                             "0000-01-01T00:00:00", "0001-01-01T00:00:00", "9999-12-31T23:59:59.999999", "2020-01-01T00:00:00.1234567",
+                             "2020-01-01T00:00:00.", "2020-01-01 00:00:00", "2020-01-01T00:00", "20-01-01T00:00:00", "2020-1-1T0:0:0",
+                             "2020-001-01T00:00:00", "2020-01-01T000:00:00", " 2020-01-01T00:00:00", "2020-01-01T00:00:00 ",
+                             "2020-01- 1T00:00:00", "1900-01-01T00:00:00.000001", "1969-12-31T23:59:59.9995"])
+        want = None
+        for fmt in good:
+            try:
+                want = int(strptime_to_utc_epoch(ts, format=fmt))
+                break
+            except ValueError:
+                continue
+        asks.append(("time", ts, "none" if want is None else str(want), drv.ask("c12_time " + hexs(ts))))
+    out = drv.run()
+    for kind, text, want, i in asks:
+        run.count(f"field:{kind}:" + ("refused" if want == "none" else "read"))
+        if out[i] != want:
+            run.mismatch(dict(kind=f"field:{kind}", text=text), want, out[i])
 
 
 # ----------------------------------------------------------------------------- tiers
@@ -399,10 +556,17 @@ def _repeat_events(rng, cats, p=0.25):
     return cats
 
 
+FNAMES = [None, None, None, None, "ucerf3-etas_2019-07-06T03-19-54-040000.csv", "model_2020-01-01T0-0-0-0.csv",
+          "a_b_c.csv", "x.y_z.csv", "forecast_1992-06-28T11-57-34-123456_v2.csv", "no-underscore.csv", "_leading.csv",
+          "name_not-a-time.csv", "UPPER_2010-02-30T00-00-00-0.csv", "etas_2019-07-06T03-19-54-040000", "cat.forecast.CSV",
+          "lon_lat.csv", "0_0.csv"]
+
+
 def _dialect(rng, k):
-    """file-level options: local time zone of the loading process (cycled), csv quoting style, line terminator"""
+    """file-level options: local time zone of the loading process (cycled), csv quoting style, line terminator, file name
+    (the loaders derive a default name / start time from `<name>_<%Y-%m-%dT%H-%M-%S-%f>.*`; the catalogs must not care)"""
     return dict(tz=ZONES[k % len(ZONES)], quoting=rng.choice(["minimal"] * 6 + ["all", "id"]),
-                eol="\r\n" if rng.random() < 0.2 else "\n")
+                eol="\r\n" if rng.random() < 0.2 else "\n", fname=rng.choice(FNAMES))
 
 
 def _exhaustive(ctx, rng, nmax):
@@ -474,6 +638,9 @@ def _mutate(rng, spec):
 def run(run, rng, tier):
     ctx = Ctx(run)
     try:
+        # the text layer (float(), int(), repr) of the running Python against Model/DecimalText.lean
+        run.extra["text_tokens_compared"] = c11_text.token_stream(run, rng, 600 if tier == "quick" else 8000)
+        _field_stream(run, rng, 400 if tier == "quick" else 4000)
         # corpus first
         cdir = os.path.join(os.path.dirname(os.path.dirname(os.path.abspath(__file__))), "corpus", "C12")
         if os.path.isdir(cdir):
@@ -523,6 +690,13 @@ def run(run, rng, tier):
 
 def replay(run, payload):
     case = payload["case"]
+    if isinstance(case, dict) and case.get("kind") in c11_text.TOKEN_KINDS:
+        c11_text.replay_token(run, case)
+        return
+    if isinstance(case, dict) and str(case.get("kind", "")).startswith("field:"):
+        import random
+        _field_stream(run, random.Random(payload.get("seed", 0)), 2000)
+        return
     spec = case["spec"]
     ctx = Ctx(run)
     try:
